@@ -20,15 +20,15 @@ Definition vidx (v : var) : nat := match v with V _ o => o end.
 Record tinfo := { tshow : string; tconcrete : bool }.
 
 (* foreign graph of an inlined model (after inline()'s normalisation), in the order rename_in_graph visits names *)
-Inductive onode := ONode (oname oop odomain : string) (oins oouts : list string) (osubs : list (string * ograph))
-with ograph := OGraph (oinputs : list string) (obody : list onode) (ooutputs : list string) (ovalue_info : list string).
+Inductive onode := ONode (oname oop odomain : string) (oins oouts : list string) (oattrs : list (string * option ograph))
+with ograph := OGraph (oinputs oinits : list string) (obody : list onode) (ooutputs : list string) (ovalue_info : list string).
 
 Inductive nkind :=
 | KArg                       (* spox.internal Argument *)
 | KInit                      (* spox.internal Initializer *)
 | KOp                        (* any standard or custom operator *)
 | KInline (m : ograph) (imports : list (string * nat))
-| KFunc (body : nat).        (* Function node; body = id of its func_graph *)
+| KFunc (body : nat) (fins fouts fattrs : list string).   (* Function node; body = id of its func_graph; FunctionProto signature *)
 
 Inductive attrv := AGraph (g : nat) | AVal (rendering : string).
 
@@ -66,8 +66,12 @@ Inductive mnode :=
 | MNode (name op dom : string) (src : nref) (inputs outputs : list string) (mattrs : list (string * option mgraph))
 | MInit (name : string) (src : nref)                                   (* entry of GraphProto.initializer *)
 | MIntro (name : string) (src : nref) (inputs outputs : list string)   (* k Identity nodes <name>_id<i> *)
-| MRaw (name op dom : string) (src : nref) (inputs outputs : list string) (msubs : list (string * mraw))  (* node of an inlined model *)
+| MInline (name : string) (src : nref) (inputs outputs : list string) (body : list mraw)   (* renamed nodes of an inlined model;
+                                                                          inputs/outputs = names of the Inline node's operand / result Vars *)
 with mgraph := MGraph (ginputs : list (string * string)) (body : list mnode) (goutputs : list (string * string))
-with mraw := MRawGraph (rinputs : list string) (rbody : list mnode) (routputs : list string).
+with mraw := MRaw (name op dom : string) (inputs outputs : list string) (rattrs : list (string * option mrawgraph))
+with mrawgraph := MRawGraph (rinputs rinits : list string) (rbody : list mraw) (routputs : list string).
 
-Record model := { mmain : mgraph; mimports : list (string * nat); mfunctions : list (string * string * mgraph * list (string * nat)) }.
+Record mfunction := { f_domain : string; f_name : string; f_inputs : list string; f_outputs : list string;
+                      f_attrs : list string; f_body : list mnode; f_imports : list (string * nat) }.
+Record model := { mmain : mgraph; mimports : list (string * nat); mfunctions : list mfunction }.
